@@ -8,9 +8,16 @@ def parseBeh : String → Option Beh
   | "pass" => some .pass | "replace" => some .replace | "drop" => some .drop | "err" => some .err | "errev" => some .err
   | _ => none
 
-def parsePol : String → Option Pol
-  | "dflt" => some .dflt | "allow" => some .allow | "deny" => some .deny | "invalid" => some .invalid
+def parsePolOpt : String → Option PolOpt
+  | "allow" => some ⟨true, .allow⟩ | "deny" => some ⟨true, .deny⟩ | "invalid" => some ⟨true, .invalid⟩
+  | "xallow" => some ⟨false, .allow⟩ | "xdeny" => some ⟨false, .deny⟩ | "xinvalid" => some ⟨false, .invalid⟩
+  | "nil" => some ⟨true, .dflt⟩
   | _ => none
+
+/-- the option list of one call: `dflt` (no option) or options joined by `+` -/
+def parsePol (s : String) : Option Pol :=
+  if s = "dflt" then some .dflt
+  else (s.splitOn "+").mapM parsePolOpt |>.map effPol
 
 def errName : Err → String
   | .emptyId => "E_EMPTY_ID" | .badPolicy => "E_BAD_POLICY" | .deny => "E_DENY" | .notFound => "E_NOT_FOUND"
